@@ -7,4 +7,4 @@ Extraction Blacklist List String Nat.
 Extraction "model.ml" fs_challenge_call fs_accept fischlin_params fi_key_call fischlin_accept
   rf_crs_call randfischlin_accept
   lin_commit lin_respond lin_verify lin_simulate lin_extract lin_proto
-  batch_respond batch_verify batch_simulate and2 andn_verify or_verify or_commit or_shares.
+  batch_respond batch_verify batch_simulate and2 andn_verify or_verify or_prove.
